@@ -1,1 +1,415 @@
-pub fn placeholder() {}
+//! spec.rs -- the hand-written statement of what the properties refer to: the rules of chess
+//! (attack relation, pseudo-legal and legal moves, successor position), the published Zobrist key
+//! layout, the piece-square evaluation, and the standard text renderings (UCI, FEN, move record).
+//!
+//! TRUSTED.  Nothing in this file calls, or is derived from, engine code.  It works on its own
+//! encodings: squares are `usize` 0..64 (`rank*8 + file`, a1 = 0, h8 = 63), square contents are
+//! `u8` codes (0 empty; 1..=6 white P N B R Q K; 9..=14 black P N B R Q K).
+//!
+//! The attack relation is written from the ATTACKER's point of view (does the piece on `from`
+//! reach `to`?), the engine scans outward from the target; the two share no traversal.
+
+pub const EMPTY: u8 = 0;
+pub const P: u8 = 1;
+pub const N: u8 = 2;
+pub const B: u8 = 3;
+pub const R: u8 = 4;
+pub const Q: u8 = 5;
+pub const K: u8 = 6;
+pub const BLACK: u8 = 8;
+
+#[inline] pub fn valid_code(c: u8) -> bool { c == 0 || (1 <= c && c <= 6) || (9 <= c && c <= 14) }
+#[inline] pub fn is_white(c: u8) -> bool { 1 <= c && c <= 6 }
+#[inline] pub fn is_black(c: u8) -> bool { 9 <= c && c <= 14 }
+#[inline] pub fn kind(c: u8) -> u8 { c & 7 }
+#[inline] pub fn owned_by(c: u8, white: bool) -> bool { if white { is_white(c) } else { is_black(c) } }
+#[inline] pub fn code(k: u8, white: bool) -> u8 { if white { k } else { k | BLACK } }
+#[inline] pub fn rank(sq: usize) -> i8 { (sq / 8) as i8 }
+#[inline] pub fn file(sq: usize) -> i8 { (sq % 8) as i8 }
+#[inline] pub fn sq_of(rank: i8, file: i8) -> usize { (rank as usize) * 8 + file as usize }
+#[inline] pub fn on_board(rank: i8, file: i8) -> bool { 0 <= rank && rank < 8 && 0 <= file && file < 8 }
+#[inline] fn abs(x: i8) -> i8 { if x < 0 { -x } else { x } }
+#[inline] fn sgn(x: i8) -> i8 { if x < 0 { -1 } else if x > 0 { 1 } else { 0 } }
+
+pub type Board = [u8; 64];
+
+/// The abstract position: exactly what the rules care about.
+#[derive(Clone, Copy, PartialEq, Eq)]
+pub struct View {
+    pub board: Board,
+    pub white_to_move: bool,
+    /// castling rights: white king side, white queen side, black king side, black queen side
+    pub castle: [bool; 4],
+    /// en-passant file 0..=7, or 8 for none
+    pub ep: u8,
+}
+
+// ------------------------------------------------------------------------------------------------
+// attack relation
+// ------------------------------------------------------------------------------------------------
+
+/// every square strictly between `from` and `to` (which must share a rank, file or diagonal) is empty
+pub fn clear_between(b: &Board, from: usize, to: usize) -> bool {
+    let (dr, dc) = (rank(to) - rank(from), file(to) - file(from));
+    let (sr, sc) = (sgn(dr), sgn(dc));
+    let dist = if abs(dr) > abs(dc) { abs(dr) } else { abs(dc) };
+    let mut ok = true;
+    let mut k: i8 = 1;
+    while k < 7 {
+        if k < dist {
+            let s = sq_of(rank(from) + k * sr, file(from) + k * sc);
+            if b[s] != EMPTY { ok = false; }
+        }
+        k += 1;
+    }
+    ok
+}
+
+/// does the piece standing on `from` attack square `to`?
+pub fn attacks(b: &Board, from: usize, to: usize) -> bool {
+    let c = b[from];
+    if c == EMPTY || from == to { return false; }
+    let (dr, dc) = (rank(to) - rank(from), file(to) - file(from));
+    let (ar, ac) = (abs(dr), abs(dc));
+    let k = kind(c);
+    if k == N { (ar == 1 && ac == 2) || (ar == 2 && ac == 1) }
+    else if k == K { ar <= 1 && ac <= 1 }
+    else if k == P { ac == 1 && dr == (if is_white(c) { 1 } else { -1 }) }
+    else if k == R { (dr == 0 || dc == 0) && clear_between(b, from, to) }
+    else if k == B { ar == ac && clear_between(b, from, to) }
+    else if k == Q { (dr == 0 || dc == 0 || ar == ac) && clear_between(b, from, to) }
+    else { false }
+}
+
+/// is `sq` attacked by some piece of colour `by_white`?
+pub fn attacked(b: &Board, sq: usize, by_white: bool) -> bool {
+    let mut r = false;
+    let mut from = 0;
+    while from < 64 {
+        if owned_by(b[from], by_white) && attacks(b, from, sq) { r = true; }
+        from += 1;
+    }
+    r
+}
+
+/// square of the (first) king of the given colour, 64 if none
+pub fn king_sq(b: &Board, white: bool) -> usize {
+    let mut r = 64;
+    let mut s = 64;
+    while s > 0 {
+        s -= 1;
+        if b[s] == code(K, white) { r = s; }
+    }
+    r
+}
+
+pub fn count(b: &Board, c: u8) -> u32 {
+    let mut n = 0;
+    let mut s = 0;
+    while s < 64 { if b[s] == c { n += 1; } s += 1; }
+    n
+}
+
+// ------------------------------------------------------------------------------------------------
+// moves (spec representation) and the successor position
+// ------------------------------------------------------------------------------------------------
+
+#[derive(Clone, Copy, PartialEq, Eq)]
+pub enum SMove {
+    /// any non-special move, capture or not (king and rook moves lose rights, double pushes set e.p.)
+    Normal { from: usize, to: usize },
+    /// pawn reaches the last rank and becomes `kind` (N, B, R or Q)
+    Promo { from: usize, to: usize, kind: u8 },
+    /// pawn on `from` captures the pawn that just double-pushed, landing on `to`
+    EnPassant { from: usize, to: usize },
+    CastleShort,
+    CastleLong,
+}
+
+pub const A1: usize = 0; pub const E1: usize = 4; pub const H1: usize = 7;
+pub const A8: usize = 56; pub const E8: usize = 60; pub const H8: usize = 63;
+
+/// geometric validity of a move of the side to move, king safety NOT considered
+/// (castling does include its own attack conditions, as the rules define castling with them)
+pub fn pseudo(v: &View, m: SMove) -> bool {
+    let w = v.white_to_move;
+    let b = &v.board;
+    match m {
+        SMove::Normal { from, to } => {
+            if from >= 64 || to >= 64 || from == to { return false; }
+            let c = b[from];
+            if !owned_by(c, w) || owned_by(b[to], w) { return false; }
+            let k = kind(c);
+            if k == P {
+                let fwd: i8 = if w { 1 } else { -1 };
+                let (dr, dc) = (rank(to) - rank(from), file(to) - file(from));
+                let last: i8 = if w { 7 } else { 0 };
+                if rank(to) == last { return false; } // that is a promotion, not a normal move
+                if dc == 0 && dr == fwd { b[to] == EMPTY }
+                else if dc == 0 && dr == 2 * fwd {
+                    rank(from) == (if w { 1 } else { 6 }) && b[to] == EMPTY && b[sq_of(rank(from) + fwd, file(from))] == EMPTY
+                }
+                else if abs(dc) == 1 && dr == fwd { owned_by(b[to], !w) }
+                else { false }
+            } else {
+                attacks(b, from, to)
+            }
+        }
+        SMove::Promo { from, to, kind: nk } => {
+            if from >= 64 || to >= 64 { return false; }
+            let c = b[from];
+            if c != code(P, w) { return false; }
+            if !(nk == N || nk == B || nk == R || nk == Q) { return false; }
+            let fwd: i8 = if w { 1 } else { -1 };
+            let (dr, dc) = (rank(to) - rank(from), file(to) - file(from));
+            if rank(to) != (if w { 7 } else { 0 }) || dr != fwd { return false; }
+            if dc == 0 { b[to] == EMPTY } else if abs(dc) == 1 { owned_by(b[to], !w) } else { false }
+        }
+        SMove::EnPassant { from, to } => {
+            if from >= 64 || to >= 64 || v.ep >= 8 { return false; }
+            let fwd: i8 = if w { 1 } else { -1 };
+            b[from] == code(P, w)
+                && rank(from) == (if w { 4 } else { 3 })
+                && rank(to) == rank(from) + fwd
+                && file(to) == v.ep as i8
+                && abs(file(to) - file(from)) == 1
+        }
+        SMove::CastleShort => {
+            let (e, f, g) = if w { (E1, 5, 6) } else { (E8, 61, 62) };
+            v.castle[if w { 0 } else { 2 }]
+                && b[f] == EMPTY && b[g] == EMPTY
+                && !attacked(b, e, !w) && !attacked(b, f, !w) && !attacked(b, g, !w)
+        }
+        SMove::CastleLong => {
+            let (e, d, c, bb) = if w { (E1, 3, 2, 1) } else { (E8, 59, 58, 57) };
+            v.castle[if w { 1 } else { 3 }]
+                && b[d] == EMPTY && b[c] == EMPTY && b[bb] == EMPTY
+                && !attacked(b, e, !w) && !attacked(b, d, !w) && !attacked(b, c, !w)
+        }
+    }
+}
+
+/// the position the rules prescribe after `m` (which is assumed pseudo-legal in `v`)
+pub fn apply(v: &View, m: SMove) -> View {
+    let w = v.white_to_move;
+    let mut n = *v;
+    n.white_to_move = !w;
+    n.ep = 8;
+    match m {
+        SMove::Normal { from, to } => {
+            let c = v.board[from];
+            n.board[from] = EMPTY;
+            n.board[to] = c;
+            if kind(c) == P && abs(rank(to) - rank(from)) == 2 {
+                // en-passant opportunity recorded exactly when an enemy pawn stands beside the landing square
+                let enemy_pawn = code(P, !w);
+                let f = file(to);
+                let left = f > 0 && v.board[to - 1] == enemy_pawn;
+                let right = f < 7 && v.board[to + 1] == enemy_pawn;
+                if left || right { n.ep = f as u8; }
+            }
+            lose_rights(&mut n.castle, from, to);
+        }
+        SMove::Promo { from, to, kind: nk } => {
+            n.board[from] = EMPTY;
+            n.board[to] = code(nk, w);
+            lose_rights(&mut n.castle, from, to);
+        }
+        SMove::EnPassant { from, to } => {
+            let c = v.board[from];
+            n.board[from] = EMPTY;
+            n.board[to] = c;
+            n.board[sq_of(rank(from), file(to))] = EMPTY;
+        }
+        SMove::CastleShort => {
+            let r0 = if w { 0 } else { 56 };
+            n.board[r0 + 4] = EMPTY; n.board[r0 + 7] = EMPTY;
+            n.board[r0 + 6] = code(K, w); n.board[r0 + 5] = code(R, w);
+            if w { n.castle[0] = false; n.castle[1] = false; } else { n.castle[2] = false; n.castle[3] = false; }
+        }
+        SMove::CastleLong => {
+            let r0 = if w { 0 } else { 56 };
+            n.board[r0 + 4] = EMPTY; n.board[r0] = EMPTY;
+            n.board[r0 + 2] = code(K, w); n.board[r0 + 3] = code(R, w);
+            if w { n.castle[0] = false; n.castle[1] = false; } else { n.castle[2] = false; n.castle[3] = false; }
+        }
+    }
+    n
+}
+
+/// A castling right needs king and rook on their home squares; any move from or onto one of those
+/// squares ends the right (the piece left, or was captured there).
+fn lose_rights(c: &mut [bool; 4], from: usize, to: usize) {
+    if from == E1 || to == E1 { c[0] = false; c[1] = false; }
+    if from == E8 || to == E8 { c[2] = false; c[3] = false; }
+    if from == H1 || to == H1 { c[0] = false; }
+    if from == A1 || to == A1 { c[1] = false; }
+    if from == H8 || to == H8 { c[2] = false; }
+    if from == A8 || to == A8 { c[3] = false; }
+}
+
+/// legal = pseudo-legal and the mover's king is not attacked afterwards
+pub fn legal(v: &View, m: SMove) -> bool {
+    if !pseudo(v, m) { return false; }
+    let n = apply(v, m);
+    let k = king_sq(&n.board, v.white_to_move);
+    k < 64 && !attacked(&n.board, k, !v.white_to_move)
+}
+
+// ------------------------------------------------------------------------------------------------
+// Zobrist keys: the published layout of zobrist_bytes.bin (little-endian u64 at byte offsets
+//   side key: 0      empty-square key: 1      state key i: 2 + 8*i      piece key: 259 + 8*(12*sq + p)
+//   with p = 0..5 white Q R B N P K, 6..11 black Q R B N P K)
+// ------------------------------------------------------------------------------------------------
+
+pub static KEY_BYTES: &[u8; 8208] = include_bytes!(concat!(env!("CARGO_MANIFEST_DIR"), "/src/zobrist_bytes.bin"));
+
+pub const fn le64(off: usize) -> u64 {
+    let b = KEY_BYTES;
+    (b[off] as u64) | (b[off + 1] as u64) << 8 | (b[off + 2] as u64) << 16 | (b[off + 3] as u64) << 24
+        | (b[off + 4] as u64) << 32 | (b[off + 5] as u64) << 40 | (b[off + 6] as u64) << 48 | (b[off + 7] as u64) << 56
+}
+
+pub const SIDE_KEY: u64 = le64(0);
+pub const EMPTY_KEY: u64 = le64(1);
+pub const fn state_key_at(i: usize) -> u64 { le64(2 + 8 * i) }
+pub const fn piece_key_at(sq: usize, p: usize) -> u64 { le64(259 + 8 * (12 * sq + p)) }
+
+/// const tables so that look-ups with symbolic indices are array reads, not byte arithmetic
+pub static STATE_KEYS: [u64; 256] = {
+    let mut t = [0u64; 256];
+    let mut i = 0;
+    while i < 256 { t[i] = state_key_at(i); i += 1; }
+    t
+};
+/// [sq][code] with the spec's content codes (0 empty, 1..=6 white PNBRQK, 9..=14 black); unused codes 0
+pub static SQ_KEYS: [[u64; 16]; 64] = {
+    let mut t = [[0u64; 16]; 64];
+    let mut s = 0;
+    while s < 64 {
+        t[s][0] = EMPTY_KEY;
+        // layout order of the file: Q R B N P K
+        t[s][Q as usize] = piece_key_at(s, 0);
+        t[s][R as usize] = piece_key_at(s, 1);
+        t[s][B as usize] = piece_key_at(s, 2);
+        t[s][N as usize] = piece_key_at(s, 3);
+        t[s][P as usize] = piece_key_at(s, 4);
+        t[s][K as usize] = piece_key_at(s, 5);
+        t[s][(Q | BLACK) as usize] = piece_key_at(s, 6);
+        t[s][(R | BLACK) as usize] = piece_key_at(s, 7);
+        t[s][(B | BLACK) as usize] = piece_key_at(s, 8);
+        t[s][(N | BLACK) as usize] = piece_key_at(s, 9);
+        t[s][(P | BLACK) as usize] = piece_key_at(s, 10);
+        t[s][(K | BLACK) as usize] = piece_key_at(s, 11);
+        s += 1;
+    }
+    t
+};
+
+#[inline] pub fn key(sq: usize, c: u8) -> u64 { SQ_KEYS[sq][c as usize] }
+
+/// bitfield of the state key: low nibble e.p. file (8 = none), bits 4..7 = WK, WQ, BK, BQ rights
+pub fn state_bits(castle: &[bool; 4], ep: u8) -> u8 {
+    (ep & 15) | (castle[0] as u8) << 4 | (castle[1] as u8) << 5 | (castle[2] as u8) << 6 | (castle[3] as u8) << 7
+}
+
+/// the hash the published key file assigns to a position
+pub fn hash_of(v: &View) -> u64 {
+    let mut h = 0u64;
+    let mut s = 0;
+    while s < 64 { h ^= key(s, v.board[s]); s += 1; }
+    if !v.white_to_move { h ^= SIDE_KEY; }
+    h ^ STATE_KEYS[state_bits(&v.castle, v.ep) as usize]
+}
+
+// ------------------------------------------------------------------------------------------------
+// evaluation: material + piece-square value, tables as published in the "Simplified Evaluation
+// Function" the engine cites, from White's point of view with a8 first; Black's value is the
+// negated value of the vertically mirrored square.  The tables themselves are read from the engine
+// (scores.rs is data, not code); the spec fixes HOW a table is applied.
+// ------------------------------------------------------------------------------------------------
+
+/// value of content `c` on `sq` given the table (a8-first layout) for its kind
+pub fn sq_score(table: &[i16; 64], sq: usize, c: u8) -> i16 {
+    if c == EMPTY { return 0; }
+    if is_white(c) { table[(7 - sq / 8) * 8 + sq % 8] } else { -table[(sq / 8) * 8 + sq % 8] }
+}
+
+pub fn mirror_sq(sq: usize) -> usize { (7 - sq / 8) * 8 + sq % 8 }
+pub fn mirror_code(c: u8) -> u8 { if c == EMPTY { 0 } else { c ^ BLACK } }
+
+// ------------------------------------------------------------------------------------------------
+// text renderings (fixed-size byte buffers; `len` bytes are meaningful)
+// ------------------------------------------------------------------------------------------------
+
+#[derive(Clone, Copy, PartialEq, Eq)]
+pub struct Text<const CAP: usize> { pub b: [u8; CAP], pub len: usize }
+impl<const CAP: usize> Text<CAP> {
+    pub fn new() -> Self { Text { b: [0; CAP], len: 0 } }
+    pub fn push(&mut self, c: u8) { self.b[self.len] = c; self.len += 1; }
+    pub fn eq_bytes(&self, s: &[u8]) -> bool {
+        if s.len() != self.len { return false; }
+        let mut i = 0;
+        let mut ok = true;
+        while i < CAP { if i < self.len && self.b[i] != s[i] { ok = false; } i += 1; }
+        ok
+    }
+}
+
+pub fn file_char(f: i8) -> u8 { b'a' + f as u8 }
+pub fn rank_char(r: i8) -> u8 { b'1' + r as u8 }
+
+/// UCI long algebraic text: from-square, to-square, lower-case promotion letter; castling as the
+/// king's two-square move
+pub fn uci_text(m: SMove, white: bool) -> Text<5> {
+    let mut t = Text::new();
+    let (from, to, promo) = match m {
+        SMove::Normal { from, to } => (from, to, 0),
+        SMove::EnPassant { from, to } => (from, to, 0),
+        SMove::Promo { from, to, kind } => (from, to, kind),
+        SMove::CastleShort => if white { (E1, 6, 0) } else { (E8, 62, 0) },
+        SMove::CastleLong => if white { (E1, 2, 0) } else { (E8, 58, 0) },
+    };
+    t.push(file_char(file(from))); t.push(rank_char(rank(from)));
+    t.push(file_char(file(to))); t.push(rank_char(rank(to)));
+    if promo != 0 {
+        t.push(if promo == Q { b'q' } else if promo == R { b'r' } else if promo == B { b'b' } else { b'n' });
+    }
+    t
+}
+
+/// FEN letter of a content code
+pub fn fen_letter(c: u8) -> u8 {
+    let l = match kind(c) { 1 => b'P', 2 => b'N', 3 => b'B', 4 => b'R', 5 => b'Q', _ => b'K' };
+    if is_black(c) { l + 32 } else { l }
+}
+
+/// the engine's move-record ("PGN-like") text as described by property C20: piece letter (none for
+/// pawns), origin file, `x` on capture, destination square, `=Q/R/B/N` on promotion, O-O / O-O-O.
+/// Promotions: origin file, [x], destination, `=`, piece.
+pub fn record_text(b: &Board, m: SMove, white: bool) -> Text<8> {
+    let mut t = Text::new();
+    match m {
+        SMove::CastleShort => { t.push(b'O'); t.push(b'-'); t.push(b'O'); }
+        SMove::CastleLong => { t.push(b'O'); t.push(b'-'); t.push(b'O'); t.push(b'-'); t.push(b'O'); }
+        SMove::Normal { from, to } => {
+            let k = kind(b[from]);
+            if k != P { t.push(match k { 2 => b'N', 3 => b'B', 4 => b'R', 5 => b'Q', _ => b'K' }); }
+            t.push(file_char(file(from)));
+            if b[to] != EMPTY { t.push(b'x'); }
+            t.push(file_char(file(to))); t.push(rank_char(rank(to)));
+        }
+        SMove::EnPassant { from, to } => {
+            t.push(file_char(file(from))); t.push(b'x');
+            t.push(file_char(file(to))); t.push(rank_char(rank(to)));
+        }
+        SMove::Promo { from, to, kind: nk } => {
+            t.push(file_char(file(from)));
+            if b[to] != EMPTY { t.push(b'x'); }
+            t.push(file_char(file(to))); t.push(rank_char(rank(to)));
+            t.push(b'=');
+            t.push(match nk { 2 => b'N', 3 => b'B', 4 => b'R', _ => b'Q' });
+        }
+    }
+    t
+}
